@@ -679,7 +679,7 @@ Qed.
 Lemma Inv_write all full mp s tr id buf cut s' o :
   write_step mp id buf cut s = (s', o) -> Inv all full s tr -> Inv all full s' (tr ++ [(EvWrite id buf cut, o)]).
 Proof.
-  unfold write_step. intros Hstep HI.
+  unfold write_step, write_step_pf. intros Hstep HI.
   assert (Ht : forall s0 o0, Inv all full s0 tr -> Inv all full s0 (tr ++ [(EvWrite id buf cut, o0)])).
   { intros s0 o0. apply Inv_trace. intros i. reflexivity. }
   destruct (find_conn id (m_conns s)); [|inversion Hstep; subst; auto].
@@ -687,9 +687,9 @@ Proof.
   destruct (m_closed s || m_tx_broken s); [inversion Hstep; subst; auto|].
   destruct cut as [k|]; [|inversion Hstep; subst; apply Ht, Inv_set_tx, HI].
   destruct (lenN _ <=? k); [inversion Hstep; subst; apply Ht, Inv_set_tx, HI|].
-  destruct (n_of_failing_call _ _ =? 0); inversion Hstep; subst; apply Ht.
-  - apply Inv_set_tx, HI.
+  destruct (cut_fatal _ _ _); inversion Hstep; subst; apply Ht.
   - apply Inv_do_close, Inv_latch, Inv_set_tx, HI.
+  - apply Inv_set_tx, HI.
 Qed.
 
 (* ---------- Read with an explicit buffer: the state moves as for Read ---------- *)
@@ -801,6 +801,8 @@ Proof.
   - inversion Hstep; subst. apply Inv_trace; [intros i; reflexivity|]. now apply Inv_do_close.
   - inversion Hstep; subst. apply Inv_trace; [intros i; reflexivity|]. now apply Inv_conn_close.
   - inversion Hstep; subst. apply Inv_trace; [intros i; reflexivity|]. now apply Inv_set_tx.
+  - inversion Hstep; subst. apply Inv_trace; [intros i; reflexivity|]. unfold trunk_up_step.
+    destruct (m_closed s); [exact HI|now apply Inv_set_tx].
   - inversion Hstep; subst. apply Inv_trace; [intros i; reflexivity|]. now apply Inv_reader_fail.
 Qed.
 
@@ -948,14 +950,15 @@ Proof.
     intros e' _ He. apply H2. destruct (snd (read_step id pick s)); try discriminate; exact He.
   - destruct (open_step_fields open_closes_on_closed id s) as [-> _]. split; [exact H|discriminate].
   - rewrite close_checks_ok, stale_close_noop. split; [exact H|discriminate].
-  - split; [|discriminate]. unfold write_step.
+  - split; [|discriminate]. unfold write_step, write_step_pf.
     destruct (find_conn id (m_conns s)); [|exact H]. destruct (c_closed c); [exact H|].
     destruct (m_closed s || m_tx_broken s); [exact H|]. destruct cut; [|exact H].
-    destruct (_ <=? _); [exact H|]. destruct (_ =? 0); [exact H|].
+    destruct (_ <=? _); [exact H|]. destruct (cut_fatal _ _ _); [|exact H].
     cbn [fst]. rewrite do_close_err. unfold latch. cbn [m_err set_tx]. now rewrite H.
   - split; [|discriminate]. now rewrite do_close_err.
   - split; [exact H|discriminate].
   - split; [exact H|discriminate].
+  - split; [|discriminate]. unfold trunk_up_step. destruct (m_closed s); exact H.
   - split; [|discriminate]. unfold reader_fail_step, fail_reader.
     destruct (m_reader_done s); [exact H|]. destruct (m_closed s); cbn [set_reader_done m_err];
       rewrite ?do_close_err, (latch_some _ _ _ H); exact H.
@@ -988,11 +991,12 @@ Proof.
     destruct (c_queue c); [destruct (c_closed c)|destruct (c_closed c && negb pick)]; destruct (m_err s); exact H.
   - destruct (open_step_fields open_closes_on_closed id s) as [_ [-> _]]. exact H.
   - rewrite close_checks_ok, stale_close_noop. exact H.
-  - unfold write_step. destruct (find_conn id (m_conns s)); [|exact H]. destruct (c_closed c); [exact H|].
+  - unfold write_step, write_step_pf. destruct (find_conn id (m_conns s)); [|exact H]. destruct (c_closed c); [exact H|].
     rewrite H. exact H.
   - unfold do_close. now rewrite H.
   - exact H.
   - exact H.
+  - unfold trunk_up_step. now rewrite H.
   - unfold reader_fail_step. destruct (m_reader_done s); [exact H|]. rewrite H. unfold latch. destruct (m_err s); exact H.
 Qed.
 
@@ -1020,7 +1024,7 @@ Proof.
   destruct ev; cbn [step_mp snd]; auto.
   - specialize (Hrd id pick). destruct (snd (read_step id pick s)); try exact I. now apply Hrd.
   - specialize (Hrd id pick). rewrite read_buf_snd. destruct (snd (read_step id pick s)); try exact I. now apply Hrd.
-  - unfold write_step. destruct (find_conn id (m_conns s)) as [c|] eqn:Ef; [|exact I].
+  - unfold write_step, write_step_pf. destruct (find_conn id (m_conns s)) as [c|] eqn:Ef; [|exact I].
     apply find_conn_In in Ef. rewrite (H4 c (proj1 Ef)). exact I.
 Qed.
 
@@ -1073,12 +1077,13 @@ Proof.
   - rewrite read_buf_fst, received_readb. apply drain_read.
   - apply drain_open. congruence.
   - rewrite close_checks_ok, stale_close_noop. reflexivity.
-  - unfold write_step. destruct (find_conn id0 (m_conns s)); [|reflexivity]. destruct (c_closed c); [reflexivity|].
+  - unfold write_step, write_step_pf. destruct (find_conn id0 (m_conns s)); [|reflexivity]. destruct (c_closed c); [reflexivity|].
     rewrite H. reflexivity.
   - unfold do_close. rewrite H. reflexivity.
   - unfold conn_close_step. rewrite queue_in_upd by apply keeps_unmap. unfold queue_in.
     destruct (find_conn id (m_conns s)); [|reflexivity]. destruct (c_id c =? id0); reflexivity.
   - reflexivity.
+  - unfold trunk_up_step. rewrite H. reflexivity.
   - unfold reader_fail_step. destruct (m_reader_done s); [reflexivity|]. rewrite H. unfold latch. destruct (m_err s); reflexivity.
 Qed.
 
@@ -1174,9 +1179,10 @@ Proof.
   intros H1 H2 H3 (tl&w&Ha&Hb&Hc). exists tl, w. rewrite H1, H2, ok_writes_app, H3, app_nil_r. auto.
 Qed.
 
-Lemma TxInv_step mp s tr e s' o : step_mp mp s e = (s', o) -> TxInv mp s tr -> TxInv mp s' (tr ++ [(e, o)]).
+Lemma TxInv_step mp s tr e s' o : e <> EvTrunkUp ->
+  step_mp mp s e = (s', o) -> TxInv mp s tr -> TxInv mp s' (tr ++ [(e, o)]).
 Proof.
-  intros Hstep HI. destruct e; cbn [step_mp] in Hstep.
+  intros Hup Hstep HI. destruct e; cbn [step_mp] in Hstep.
   - inversion Hstep; subst. destruct (tx_reader s). (eapply TxInv_same; [ | | |exact HI]; auto).
   - pose proof (tx_read id pick s) as [H1 H2]. rewrite Hstep in H1, H2. (eapply TxInv_same; [ | | |exact HI]; auto).
   - pose proof (tx_read id pick s) as [H1 H2]. rewrite <- (read_buf_fst id pick blen bcap), Hstep in H1, H2.
@@ -1185,7 +1191,7 @@ Proof.
     (eapply TxInv_same; [ | | |exact HI]; auto).
   - rewrite close_checks_ok in Hstep. pose proof (stale_close_noop id s) as Hn. rewrite Hstep in Hn. cbn [fst] in Hn. subst s'.
     (eapply TxInv_same; [ | | |exact HI]; auto).
-  - unfold write_step in Hstep.
+  - unfold write_step, write_step_pf in Hstep.
     destruct (find_conn id (m_conns s)); [|inversion Hstep; subst; (eapply TxInv_same; [ | | |exact HI]; auto)].
     destruct (c_closed c); [inversion Hstep; subst; (eapply TxInv_same; [ | | |exact HI]; auto)|].
     destruct (m_closed s || m_tx_broken s) eqn:Eb; [inversion Hstep; subst; (eapply TxInv_same; [ | | |exact HI]; auto)|].
@@ -1204,7 +1210,7 @@ Proof.
       rewrite H1, H2, Ha, ok_writes_app. cbn [ok_writes flat_map]. rewrite !app_nil_r.
       split; [reflexivity|]. split; [|discriminate].
       rewrite trunk_mp_one, splitN_firstn_skipn. cbn [fst snd]. apply prefix_firstn. }
-    destruct (_ =? 0); inversion Hstep; subst; apply Hcut; try reflexivity.
+    destruct (cut_fatal _ _ _); inversion Hstep; subst; apply Hcut; try reflexivity.
     + destruct (tx_do_close (latch EErr (set_tx (m_tx s ++ fst (splitN k (frames_bytes (enc_frames_mp mp id buf)))) true s))) as [-> _].
       destruct (tx_latch EErr (set_tx (m_tx s ++ fst (splitN k (frames_bytes (enc_frames_mp mp id buf)))) true s)) as [-> _]. reflexivity.
     + destruct (tx_do_close (latch EErr (set_tx (m_tx s ++ fst (splitN k (frames_bytes (enc_frames_mp mp id buf)))) true s))) as [_ ->].
@@ -1214,30 +1220,34 @@ Proof.
   - inversion Hstep; subst. destruct HI as (tl&w&Ha&Hb&Hc). exists tl, w. cbn [m_tx m_tx_broken set_tx].
     rewrite ok_writes_app. cbn [ok_writes flat_map]. rewrite app_nil_r.
     split; [exact Ha|]. split; [exact Hb|discriminate].
+  - congruence.
   - inversion Hstep; subst. assert (Ht : m_tx (reader_fail_step s) = m_tx s /\ m_tx_broken (reader_fail_step s) = m_tx_broken s).
     { unfold reader_fail_step. destruct (m_reader_done s); [split; reflexivity|].
       destruct (m_closed s); [cbn [m_tx m_tx_broken set_reader_done]; apply tx_latch|apply tx_fail_reader]. }
     destruct Ht. (eapply TxInv_same; [ | | |exact HI]; auto).
 Qed.
 
-Theorem tx_between mp : forall evs s tr s' tr', TxInv mp s tr -> run_mp mp s evs = (s', tr') -> TxInv mp s' (tr ++ tr').
+Theorem tx_between mp : forall evs s tr s' tr', no_recovery evs = true ->
+  TxInv mp s tr -> run_mp mp s evs = (s', tr') -> TxInv mp s' (tr ++ tr').
 Proof.
-  induction evs as [|e r IH]; intros s tr s' tr' HI Hrun; cbn [run_mp] in Hrun.
+  induction evs as [|e r IH]; intros s tr s' tr' Hno HI Hrun; cbn [run_mp] in Hrun.
   - inversion Hrun; subst. now rewrite app_nil_r.
-  - destruct (step_mp mp s e) as [s1 o] eqn:Es. destruct (run_mp mp s1 r) as [s2 tr2] eqn:Er.
+  - cbn [no_recovery forallb] in Hno. apply andb_true_iff in Hno. destruct Hno as [He Hno].
+    destruct (step_mp mp s e) as [s1 o] eqn:Es. destruct (run_mp mp s1 r) as [s2 tr2] eqn:Er.
     inversion Hrun; subst. replace (tr ++ (e, o) :: tr2) with ((tr ++ [(e, o)]) ++ tr2) by (now rewrite <- app_assoc).
-    eapply IH; [|exact Er]. eapply TxInv_step; eauto.
+    eapply IH; [exact Hno| |exact Er]. eapply TxInv_step; eauto. intros ->. discriminate.
 Qed.
 
 Theorem tx_prefix mp rx qlen opened evs s tr :
+  no_recovery evs = true ->
   run_mp mp (init_mux rx qlen opened) evs = (s, tr) ->
   prefix (trunk_mp mp (ok_writes tr)) (m_tx s) /\
   (exists w, prefix (m_tx s) (trunk_mp mp (ok_writes tr ++ [w]))) /\
   (m_tx_broken s = false -> m_tx s = trunk_mp mp (ok_writes tr)).
 Proof.
-  intros Hrun. assert (H0 : TxInv mp (init_mux rx qlen opened) []).
+  intros Hno Hrun. assert (H0 : TxInv mp (init_mux rx qlen opened) []).
   { exists [], (0, []). cbn. split; [reflexivity|]. split; [eexists; reflexivity|reflexivity]. }
-  destruct (tx_between mp evs _ [] s tr H0 Hrun) as (tl&w&Ha&[c Hb]&Hc). cbn [app] in *.
+  destruct (tx_between mp evs _ [] s tr Hno H0 Hrun) as (tl&w&Ha&[c Hb]&Hc). cbn [app] in *.
   split; [exists tl; exact Ha|]. split.
   - exists w. rewrite trunk_mp_app, Ha, Hb. exists c. now rewrite app_assoc.
   - intros Hbr. rewrite Ha, (Hc Hbr), app_nil_r. reflexivity.
@@ -1442,12 +1452,12 @@ Proof.
   split; [reflexivity|]. split; [exact Hcl1|]. split; [exact Hrd|]. split.
   - intros pick bl bc. destruct (Hrd pick) as [e [He1 He2]]. exists e. split; [|exact He2].
     rewrite read_buf_snd, He1. reflexivity.
-  - intros buf cut. unfold write_step. rewrite Hfind, Hc. reflexivity.
+  - intros buf cut. unfold write_step, write_step_pf. rewrite Hfind, Hc. reflexivity.
 Qed.
 
 (* without the fix (Open does not look at doneC) the connection is open for ever: its Read blocks *)
 Theorem open_after_close_refuted :
-  let '(s, tr) := run_var false true max_payload_size (init_mux [] 4 [1]) [EvClose; EvOpen 6; EvRead 6 true] in
+  let '(s, tr) := run_var false true true max_payload_size (init_mux [] 4 [1]) [EvClose; EvOpen 6; EvRead 6 true] in
   m_closed s = true /\ map snd tr = [ROk; ROk; RBlock].
 Proof. cbn. split; reflexivity. Qed.
 
@@ -1459,13 +1469,14 @@ Proof. cbn [step_mp]. rewrite close_checks_ok. apply stale_close_noop. Qed.
    close the OLD handle once more — the replacement leaves the map, Mux.Close does not close it, its Read blocks;
    the sibling connection 2 is woken as it should *)
 Theorem stale_close_unguarded_refuted :
-  let '(s, tr) := run_var true false max_payload_size (init_mux [] 4 [1; 2])
+  let '(s, tr) := run_var true false true max_payload_size (init_mux [] 4 [1; 2])
                     [EvConnClose 1; EvOpen 1; EvStaleClose 1; EvClose; EvRead 1 true; EvRead 2 true] in
   m_closed s = true /\ map snd tr = [ROk; ROk; ROk; ROk; RBlock; RErr EEOF].
 Proof. cbn. split; reflexivity. Qed.
 
 (* the machine of the theorems is the variant with the switches read from the source *)
-Lemma step_var_is_step mp s e : step_var open_closes_on_closed close_checks_identity mp s e = step_mp mp s e.
+Lemma step_var_is_step mp s e :
+  step_var open_closes_on_closed close_checks_identity payload_failure_fatal_after_header mp s e = step_mp mp s e.
 Proof. destruct e; reflexivity. Qed.
 
 (* ---------- the configured queue length is the queue's capacity ---------- *)
@@ -1473,3 +1484,158 @@ Lemma queue_cap_ok : queue_cap_is_configured = true.
 Proof. reflexivity. Qed.
 Theorem queue_length_is_configured rx q opened : init_mux_cfg rx q opened = init_mux rx q opened.
 Proof. unfold init_mux_cfg, eff_qlen. now rewrite queue_cap_ok. Qed.
+
+(* ------------------------------------------------------------------ *)
+(* ---------- frame synchronisation of what an end sends, transient trunk failures included ---------- *)
+Lemma pf_ok : payload_failure_fatal_after_header = true.
+Proof. reflexivity. Qed.
+
+Lemma splitN_zero {A} (l : list A) : fst (splitN 0 l) = [].
+Proof. destruct l; reflexivity. Qed.
+
+Lemma splitN_app_l {A} n (a b : list A) : lenN a <= n ->
+  fst (splitN n (a ++ b)) = a ++ fst (splitN (n - lenN a) b).
+Proof.
+  intros H. rewrite !splitN_firstn_skipn. cbn [fst]. unfold lenN in *.
+  rewrite firstn_app, firstn_all2 by lia. f_equal. f_equal. lia.
+Qed.
+
+(* a failing Write that leaves the Mux open has put a whole number of its frames on the trunk *)
+Lemma nonfatal_cut_whole_frames : forall fs k, cut_fatal true k fs = false ->
+  exists j, fst (splitN k (frames_bytes fs)) = frames_bytes (firstn j fs).
+Proof.
+  induction fs as [|f r IH]; intros k H.
+  - exists 0%nat. destruct k; reflexivity.
+  - cbn [cut_fatal] in H. destruct (k <? 8) eqn:Ek.
+    + apply negb_false_iff, N.eqb_eq in H. subst k. exists 0%nat. apply splitN_zero.
+    + apply N.ltb_ge in Ek. destruct (lenN (snd f) <=? k - 8) eqn:El.
+      * apply N.leb_le in El. destruct (IH _ H) as [j Hj]. exists (S j).
+        assert (Hlen : lenN (frame_bytes f) = 8 + lenN (snd f)).
+        { unfold lenN. rewrite frame_bytes_length. lia. }
+        rewrite frames_bytes_cons, splitN_app_l by lia. cbn [firstn]. rewrite frames_bytes_cons. f_equal.
+        rewrite Hlen. replace (k - (8 + lenN (snd f))) with (k - 8 - lenN (snd f)) by lia. exact Hj.
+      * rewrite orb_true_r in H. discriminate.
+Qed.
+
+(* m_tx = whole frames, each a frame of some attempted Write; a partial tail only on a Mux that is closed and whose
+   trunk is down for good *)
+Definition Sync (mp : N) (s : mux_st) (tr : list (event * result)) : Prop :=
+  exists fs tl, m_tx s = frames_bytes fs ++ tl /\
+    (forall f, In f fs -> In f (attempted_frames mp tr)) /\
+    (tl <> [] -> m_closed s = true /\ m_tx_broken s = true).
+
+Lemma attempted_app mp a b : attempted_frames mp (a ++ b) = attempted_frames mp a ++ attempted_frames mp b.
+Proof. apply flat_map_app. Qed.
+
+Lemma reader_fail_tx s : m_tx (reader_fail_step s) = m_tx s /\ m_tx_broken (reader_fail_step s) = m_tx_broken s.
+Proof.
+  unfold reader_fail_step. destruct (m_reader_done s); [split; reflexivity|].
+  destruct (m_closed s); [cbn [m_tx m_tx_broken set_reader_done]; apply tx_latch|apply tx_fail_reader].
+Qed.
+
+(* once the Mux is closed nothing more goes out and a broken trunk stays broken *)
+Lemma closed_tx_frozen mp s ev : m_closed s = true ->
+  m_tx (fst (step_mp mp s ev)) = m_tx s /\ (m_tx_broken s = true -> m_tx_broken (fst (step_mp mp s ev)) = true).
+Proof.
+  intros Hc. destruct ev; cbn [step_mp fst].
+  - destruct (tx_reader s) as [-> ->]. auto.
+  - destruct (tx_read id pick s) as [-> ->]. auto.
+  - rewrite read_buf_fst. destruct (tx_read id pick s) as [-> ->]. auto.
+  - destruct (open_step_fields open_closes_on_closed id s) as (_&_&->&->&_). auto.
+  - rewrite close_checks_ok, stale_close_noop. auto.
+  - unfold write_step, write_step_pf. destruct (find_conn id (m_conns s)); [|auto]. destruct (c_closed c); [auto|].
+    rewrite Hc. cbn [orb fst]. auto.
+  - destruct (tx_do_close s) as [-> ->]. auto.
+  - cbn. auto.
+  - cbn. auto.
+  - unfold trunk_up_step. rewrite Hc. auto.
+  - destruct (reader_fail_tx s) as [-> ->]. auto.
+Qed.
+
+Lemma nonwrite_tx mp s ev : (forall id buf cut, ev <> EvWrite id buf cut) -> m_tx (fst (step_mp mp s ev)) = m_tx s.
+Proof.
+  intros Hw. destruct ev; cbn [step_mp fst].
+  - apply tx_reader.
+  - apply tx_read.
+  - rewrite read_buf_fst. apply tx_read.
+  - destruct (open_step_fields open_closes_on_closed id s) as (_&_&->&_). reflexivity.
+  - now rewrite close_checks_ok, stale_close_noop.
+  - exfalso. eapply Hw. reflexivity.
+  - apply tx_do_close.
+  - reflexivity.
+  - reflexivity.
+  - unfold trunk_up_step. destruct (m_closed s); reflexivity.
+  - apply reader_fail_tx.
+Qed.
+
+Lemma Sync_step mp s tr e s' o : step_mp mp s e = (s', o) -> Sync mp s tr -> Sync mp s' (tr ++ [(e, o)]).
+Proof.
+  intros Hstep (fs&tl&Ha&Hb&Hc).
+  assert (Hs' : s' = fst (step_mp mp s e)) by (now rewrite Hstep).
+  assert (Hmono : forall f, In f fs -> In f (attempted_frames mp (tr ++ [(e, o)]))).
+  { intros f Hf. rewrite attempted_app. apply in_or_app. left. auto. }
+  destruct (m_closed s) eqn:Ecl.
+  { (* closed: frozen *)
+    destruct (closed_tx_frozen mp s e Ecl) as [Ht Hbr]. pose proof (step_closed mp s e Ecl) as Hcl'.
+    rewrite <- Hs' in *. exists fs, tl. rewrite Ht. split; [exact Ha|]. split; [exact Hmono|].
+    intros Hne. destruct (Hc Hne) as [_ Hbk]. split; [exact Hcl'|auto]. }
+  assert (Htl : tl = []).
+  { destruct tl as [|x r]; [reflexivity|]. destruct Hc as [Hx _]; [discriminate|discriminate]. }
+  subst tl. rewrite app_nil_r in Ha.
+  assert (Hsame : m_tx s' = m_tx s -> Sync mp s' (tr ++ [(e, o)])).
+  { intros Ht. exists fs, []. rewrite Ht, app_nil_r. split; [exact Ha|]. split; [exact Hmono|]. intros Hne. now contradiction Hne. }
+  destruct e; try (apply Hsame; rewrite Hs'; apply nonwrite_tx; intros; discriminate).
+  clear Hs'. cbn [step_mp] in Hstep. unfold write_step, write_step_pf in Hstep.
+  destruct (find_conn id (m_conns s)); [|inversion Hstep; subst; now apply Hsame].
+  destruct (c_closed c); [inversion Hstep; subst; now apply Hsame|].
+  destruct (m_closed s || m_tx_broken s); [inversion Hstep; subst; now apply Hsame|].
+  assert (Hatt : forall f, In f (enc_frames_mp mp id buf) -> In f (attempted_frames mp (tr ++ [(EvWrite id buf cut, o)]))).
+  { intros f Hf. rewrite attempted_app. apply in_or_app. right. cbn. now rewrite app_nil_r. }
+  assert (Hok : forall b, Sync mp (set_tx (m_tx s ++ frames_bytes (enc_frames_mp mp id buf)) b s) (tr ++ [(EvWrite id buf cut, o)])).
+  { intros b. exists (fs ++ enc_frames_mp mp id buf), []. cbn [m_tx set_tx]. rewrite frames_bytes_app, Ha, app_nil_r.
+    split; [reflexivity|]. split; [|intros Hne; now contradiction Hne].
+    intros f Hf. apply in_app_or in Hf. destruct Hf as [Hf|Hf]; [now apply Hmono|now apply Hatt]. }
+  destruct cut as [k|]; [|inversion Hstep; subst; apply Hok].
+  destruct (_ <=? k); [inversion Hstep; subst; apply Hok|].
+  rewrite pf_ok in Hstep. destruct (cut_fatal true k (enc_frames_mp mp id buf)) eqn:Ef; inversion Hstep; subst.
+  - (* the failure closes the Mux: a partial frame may be out, nothing follows it *)
+    exists fs, (fst (splitN k (frames_bytes (enc_frames_mp mp id buf)))).
+    destruct (tx_do_close (latch EErr (set_tx (m_tx s ++ fst (splitN k (frames_bytes (enc_frames_mp mp id buf)))) true s))) as [-> ->].
+    destruct (tx_latch EErr (set_tx (m_tx s ++ fst (splitN k (frames_bytes (enc_frames_mp mp id buf)))) true s)) as [-> ->].
+    cbn [m_tx m_tx_broken set_tx]. rewrite Ha. split; [reflexivity|]. split; [exact Hmono|].
+    intros _. split; [apply do_close_closed|reflexivity].
+  - (* the Mux stays open: whole frames only *)
+    destruct (nonfatal_cut_whole_frames _ _ Ef) as [j Hj].
+    exists (fs ++ firstn j (enc_frames_mp mp id buf)), []. cbn [m_tx set_tx]. rewrite frames_bytes_app, Ha, Hj, app_nil_r.
+    split; [reflexivity|]. split; [|intros Hne; now contradiction Hne].
+    intros f Hf. apply in_app_or in Hf. destruct Hf as [Hf|Hf]; [now apply Hmono|].
+    apply Hatt. rewrite <- (firstn_skipn j (enc_frames_mp mp id buf)). apply in_or_app. now left.
+Qed.
+
+Theorem frame_sync mp rx qlen opened : forall evs s tr,
+  run_mp mp (init_mux rx qlen opened) evs = (s, tr) -> Sync mp s tr.
+Proof.
+  assert (H : forall evs s0 tr0 s tr, Sync mp s0 tr0 -> run_mp mp s0 evs = (s, tr) -> Sync mp s (tr0 ++ tr)).
+  { induction evs as [|e r IH]; intros s0 tr0 s tr HI Hrun; cbn [run_mp] in Hrun.
+    - inversion Hrun; subst. now rewrite app_nil_r.
+    - destruct (step_mp mp s0 e) as [s1 o] eqn:Es. destruct (run_mp mp s1 r) as [s2 tr2] eqn:Er.
+      inversion Hrun; subst. replace (tr0 ++ (e, o) :: tr2) with ((tr0 ++ [(e, o)]) ++ tr2) by (now rewrite <- app_assoc).
+      eapply IH; [|exact Er]. eapply Sync_step; eauto. }
+  intros evs s tr Hrun. apply (H evs (init_mux rx qlen opened) [] s tr); [|exact Hrun].
+  exists [], []. cbn. split; [reflexivity|]. split; [intros f []|intros Hne; now contradiction Hne].
+Qed.
+
+(* the code before 214cbc8 (payload error path guarded by n != 0 alone): the trunk takes the 8 header bytes of a
+   Write to id 1, the payload write fails with n = 0, the trunk carries on (a write deadline expired), a Write to
+   id 2 follows: the Mux is open, nothing is latched, and the receiver is handed three bytes of id 2's header on
+   connection 1, nothing on connection 2 *)
+Theorem frame_sync_refuted :
+  let evs := [EvWrite 1 [5; 6; 7] (Some 8); EvTrunkUp; EvWrite 2 [9] None] in
+  let '(s, tr) := run_var true true false max_payload_size (init_mux [] 4 [1; 2]) evs in
+  m_closed s = false /\ m_tx_broken s = false /\ m_err s = None /\ map snd tr = [RErr EErr; ROk; ROk] /\
+  m_tx s = [0;0;0;1; 0;0;0;3; 0;0;0;2; 0;0;0;1; 9] /\
+  dec [1; 2] (m_tx s) 1 = [[0; 0; 0]] /\ dec [1; 2] (m_tx s) 2 = [] /\
+  (* … while the machine of the theorems fails stop at that point *)
+  let '(s', tr') := run_mp max_payload_size (init_mux [] 4 [1; 2]) evs in
+  m_closed s' = true /\ m_err s' = Some EErr /\ map snd tr' = [RErr EErr; ROk; RErr EEOF] /\ m_tx s' = [0;0;0;1; 0;0;0;3].
+Proof. vm_compute. repeat split. Qed.
